@@ -245,6 +245,8 @@ def container_histories(draw):
         st.tuples(st.just("set"), st.sampled_from(KEYS + ["zz"]), st.just(None)),  # reset a key (only None: record() expects None or its own arrays)
         st.tuples(st.just("mutate_last"),),
         st.tuples(st.just("len"),),
+        # the other ways a dict takes a key: update(), setdefault(), |=
+        st.tuples(st.just("bulk"), st.sampled_from(["update", "setdefault", "ior"]), st.sampled_from(KEYS + ["zz", "zz"])),
     )
     return dict(ops=draw(st.lists(op, min_size=1, max_size=30)))
 
@@ -315,6 +317,16 @@ def run_container(case):
             elif isinstance(lo, dict):
                 lo["k"] = "mutated"
                 st_["mutated"] = True
+        elif op[0] == "bulk":
+            _, how, k = op
+            fn = {"update": lambda: h.update({k: None}), "setdefault": lambda: h.setdefault(k, None), "ior": lambda: h.__ior__({k: None})}[how]
+            if k not in model:
+                expect_value_error(fn, f"{how} key={k!r}")
+                dict.pop(h, k, None)
+            else:
+                fn()
+                if how != "setdefault":
+                    model[k] = None
         elif op[0] == "len":
             if len(h) != len(KEYS):
                 v.append(viol("container:len", f"len={len(h)}"))
